@@ -79,7 +79,7 @@ var properties = map[string][]harnessSpec{
 		{Name: "astconv.VerifC05KeyChange", Marks: []string{"end", "carrier-rejected"}},
 	},
 	"C04": {
-		{Name: "cmd.VerifC04HugeText", Quick: map[string]int{"C04.hugeKiB": 1100, "C04.hugeFillers": 1}, Thorough: map[string]int{"C04.hugeKiB": 2200, "C04.hugeFillers": 3}, Marks: end},
+		{Name: "cmd.VerifC04HugeText", Quick: map[string]int{"C04.hugeKiB": 1100, "C04.hugeFillers": 1}, Thorough: map[string]int{"C04.hugeKiB": 1100, "C04.hugeFillers": 3}, Marks: end},
 		{Name: "input/ast.VerifC04Parser", Quick: map[string]int{"C04.maxTokens": 8}, Thorough: map[string]int{"C04.maxTokens": 10}, Marks: []string{"end", "accepted", "rejected", "bad-token"}},
 		{Name: "input/ast.VerifC04ScanToken", Quick: map[string]int{"C04.window": 5}, Thorough: map[string]int{"C04.window": 6}, Marks: []string{"end", "token", "eof"}, MustTerminate: true},
 		{Name: "input/ast.VerifC04ScanToken", Quick: map[string]int{"C04.window": 3, "C04.wide": 1}, Thorough: map[string]int{"C04.window": 4, "C04.wide": 1}, Marks: []string{"end", "token", "eof"}, MustTerminate: true},
@@ -139,7 +139,7 @@ var properties = map[string][]harnessSpec{
 		{Name: "note.VerifC10DegreeCodec", Quick: map[string]int{"C10.maxNumber": 99}, Thorough: map[string]int{"C10.maxNumber": 999}, Marks: end},
 		{Name: "op.VerifC10KeyCodec", Marks: end},
 		{Name: "op.VerifC10ScalarCodecs", Solver: "cvc5-int", Quick: map[string]int{"C10.maxNumber": 99}, Thorough: map[string]int{"C10.maxNumber": 999}, Marks: end},
-		{Name: "input.VerifC10Instance", Solver: "cvc5-int", Quick: map[string]int{"C10.degrees": 2, "C10.symbols": 2, "C10.maxValues": 1, "C10.maxText": 1}, Thorough: map[string]int{"C10.degrees": 3, "C10.symbols": 2, "C10.maxValues": 2, "C10.maxText": 2}, Marks: end},
+		{Name: "input.VerifC10Instance", Solver: "cvc5-int", Quick: map[string]int{"C10.degrees": 2, "C10.symbols": 2, "C10.maxValues": 1, "C10.maxText": 1}, Thorough: map[string]int{"C10.degrees": 3, "C10.symbols": 3, "C10.maxValues": 1, "C10.maxText": 1}, Marks: end},
 		{Name: "cmd.VerifC10WriteConvPipe", Marks: end},
 	},
 	"C12": {
